@@ -1,5 +1,3 @@
-//go:build !passthrough
-
 package simrt
 
 // Chooser decides every nondeterministic choice of a run. Options are presented in a stable order
